@@ -83,6 +83,12 @@ def attacks(tier):
         out.append(('knot/RecCh/oer/%d' % n, 'RecCh', 'oer', b'\x81' * n + b'\x80\x07', 'deep'))
         out.append(('knot/RecOpt/oer/%d' % n, 'RecOpt', 'oer', b'\x80' * n + b'\x00' + b'\x01\x01' * (n + 1), 'deep'))
         out.append(('knot/RecOpt/uper/%d' % n, 'RecOpt', 'uper', _bits('1' * n + '0' + '0000000100000001' * (n + 1)), 'deep'))
+        # recursion through an extension addition (PER/OER wrap it in an open type: a separate decoder entry point per level)
+        if n <= 4096:
+            out.append(('knot/RecExt/uper/%d' % n, 'RecExt', 'uper', _rec_ext_uper(n), 'deep'))
+            out.append(('knot/RecExt/oer/%d' % n, 'RecExt', 'oer', _rec_ext_oer(n), 'deep'))
+        out.append(('knot/RecExt/ber-def/%d' % n, 'RecExt', 'ber', _rec_ext_ber(n), 'deep'))
+        out.append(('knot/RecExt/xer/%d' % n, 'RecExt', 'xer', b'<RecExt>' + b'<v>1</v><r>' * n + b'<v>1</v>' + b'</r>' * n + b'</RecExt>', 'deep'))
         # nested constructed strings
         out.append(('constructed/Oct/def/%d' % n, 'Oct', 'ber', ber_nested(0x24, n, b'\x04\x01\x55', False), 'deep'))
         out.append(('constructed/Oct/indef/%d' % n, 'Oct', 'ber', ber_nested(0x24, n, b'\x04\x01\x55', True), 'deep'))
@@ -150,6 +156,54 @@ def _rec_ch_ber(n):
     return body
 
 
+def _rec_ext_uper(n):
+    """RecExt ::= SEQUENCE { v INTEGER, ..., r RecExt OPTIONAL } nested n times, built inside-out (no Python recursion)"""
+    inner = _bits('0' + '00000001' + '00000001')                      # no extensions; v = 1
+    for _ in range(n):
+        w = uper.BitW()
+        w.put(1, 1)                                                    # extension bit
+        w.put(1, 8); w.put(1, 8)                                       # v: length 1, value 1
+        w.put(0, 1); w.put(0, 6)                                       # normally small (number of additions - 1) = 0
+        w.put(1, 1)                                                    # presence bitmap: r present
+        L = len(inner)
+        if L < 128:
+            w.put(L, 8)
+        elif L < 16384:
+            w.put(0x8000 | L, 16)
+        else:
+            break                                                      # fragmented lengths are not needed for this ladder
+        for b in inner:
+            w.put(b, 8)
+        inner = w.tobytes()
+    return inner
+
+
+def _rec_ext_oer(n):
+    inner = b'\x00' + b'\x01\x01'                                      # preamble: extension bit 0; v = 1
+    for _ in range(n):
+        body = b'\x80' + b'\x01\x01' + b'\x02\x07\x80'                # ext bit 1; v; bitmap length 2, 7 unused bits, '1'
+        L = len(inner)
+        ln = bytes([L]) if L < 128 else bytes([0x80 | ((L.bit_length() + 7) // 8)]) + L.to_bytes((L.bit_length() + 7) // 8, 'big')
+        inner = body + ln + inner
+    return inner
+
+
+def _rec_ext_ber(n):
+    body = b'\x30\x03\x80\x01\x01'
+    for _ in range(n):
+        # r [1] IMPLICIT RecExt under AUTOMATIC TAGS: the nested SEQUENCE's own tag is replaced by [1] (constructed)
+        content = _tlv_content(body)
+        body = b'\x30' + ber.length(3 + 1 + len(ber.length(len(content))) + len(content)) + b'\x80\x01\x01' + b'\xa1' + ber.length(len(content)) + content
+    return body
+
+
+def _tlv_content(tlv):
+    l0 = tlv[1]
+    if l0 < 0x80:
+        return tlv[2:]
+    return tlv[2 + (l0 & 0x7f):]
+
+
 def _rec_opt_xer(n):
     return b'<RecOpt>' + b'<r>' * n + b'<v>1</v>' + b'</r><v>1</v>' * n + b'</RecOpt>'
 
@@ -191,11 +245,19 @@ def run(args):
         kv, _ = common.parse_kv(r.line)
         distinct.add(label)
         peak, big = int(kv['peak']), int(kv['big'])
-        bound = 1024 * max(n, 1) + 65536
+        # constant factor: 1024, plus - for PER/OER open types, which copy their content once per nesting level - the number of
+        # levels the stack limit in force permits (a level costs the decoder well over 256 bytes of stack)
+        bound = (1024 + ((ms if ms else 30000) // 256)) * max(n, 1) + 65536
         if peak > bound or big > bound:
             viol('heap_not_proportional_to_input', 'input %d bytes, peak %d bytes, largest single request %d, bound %d' % (n, peak, big, bound))
         if kv.get('leak') != '0':
             viol('leak', r.line)
+        # bounded stack: whatever the decoder answers, the high-water mark of the (painted) stack stays within the limit in force
+        # (the caller's max_stack_size, else the library default of 30000) plus 64 KiB of slack for leaf frames and libc
+        limit = ms if ms else 30000
+        if 'stack' in kv and int(kv['stack']) > limit + 65536:
+            viol('stack_not_bounded_by_limit', 'stack high-water mark %s bytes under limit %d (rc=%s, input %d bytes)' % (kv['stack'], limit, kv['rc'], n))
+        stats['max_stack_seen'] = max(stats['max_stack_seen'], int(kv.get('stack', 0)))
         stats['rc_%s' % kv['rc']] += 1
         if len(samples) < 4 and stats['evaluations'] % 41 == 1:
             samples.append(dict(attack=label, input_len=n, result=r.line))
@@ -205,7 +267,7 @@ def run(args):
                     'four knots (OPTIONAL, SEQUENCE OF, CHOICE, extension addition) in BER definite/indefinite, OER, UPER, XER; nested constructed OCTET/BIT STRING; nested indefinite '
                     'lengths inside a skipped extension; length prefixes up to 2^63 with nothing, 1, 2 or 17 content octets behind them for every length-carrying leaf in BER/OER/UPER (incl. fragmented PER '
                     'lengths); zero-width elements with counts up to 2^63 (NULL, single-value INTEGER, empty SEQUENCE; OER quantity fields of 1..8 octets); each knot attack also '
-                    'with caller-supplied max_stack_size 1000 and 1000000. Oracle: the process is not killed (no SIGSEGV from stack exhaustion, no abort), no watchdog, peak live heap '
+                    'with caller-supplied max_stack_size 1000 and 1000000. Oracle: the process is not killed (no SIGSEGV from stack exhaustion, no abort), no watchdog, the high-water mark of the painted 16 MiB decode stack <= limit in force + 64 KiB, peak live heap '
                     'and largest single allocation request <= 1024 x input bytes + 64 KiB, nothing leaked. The claim is for this finite catalogue.' % (
                         '16..4096' if args.tier == 'quick' else '16..131072'),
                samples=samples, stats=dict(stats), trusted_base=['allocation ledger peak accounting', 'OS signal status'])
